@@ -29,7 +29,7 @@ impl Tier {
             Tier::Thorough => "thorough",
         }
     }
-    /// pick by tier
+    /// pick by tier (case counts given for the quick tier are multiplied by QUICK_SCALE in `explore`)
     pub fn pick<T>(&self, quick: T, thorough: T) -> T {
         match self {
             Tier::Quick => quick,
@@ -37,6 +37,8 @@ impl Tier {
         }
     }
 }
+
+pub const QUICK_SCALE: u64 = 4;
 
 #[derive(Clone, Debug, serde::Deserialize)]
 pub struct Finding {
@@ -279,6 +281,13 @@ impl Report {
         if self.failed() {
             return;
         }
+        // the quick tier's case counts in the check modules are multiplied by a common factor (fixed work,
+        // independent of the machine's speed); VERIF_QUICK_SCALE overrides it for experiments
+        let cases = if self.tier == Tier::Quick && !self.strict {
+            cases * std::env::var("VERIF_QUICK_SCALE").ok().and_then(|v| v.parse::<u64>().ok()).unwrap_or(QUICK_SCALE)
+        } else {
+            cases
+        };
         let t0 = Instant::now();
         let stop = AtomicBool::new(false);
         let next_chunk = AtomicUsize::new(0);
